@@ -225,6 +225,70 @@ fn run(ctx: &Ctx) -> Part {
         acc.states += 1;
     }
 
+    // ---- streams drawn after other public calls (sleeping display, tearing / scroll settings, orientation
+    // change): draw_iter must still equal set_pixel one by one
+    {
+        let cfg = Cfg::tiny(4, 3, false, Transport::RecSerial, (3, 2, 1, 1), 5);
+        let prefixes: Vec<Vec<Op>> = vec![
+            vec![Op::Sleep],
+            vec![Op::Sleep, Op::Wake],
+            vec![Op::Tearing(1)],
+            vec![Op::ScrollRegion(1, 1), Op::ScrollOffset(2)],
+            vec![Op::SetOrientation(2)],
+            vec![Op::Clear { c: 0x0F0F }, Op::Sleep],
+        ];
+        let g = cfg.geo();
+        for pre in &prefixes {
+            let mut geo = g;
+            for p in pre {
+                if let Op::SetOrientation(o) = p {
+                    geo.orient = *o;
+                }
+            }
+            let (lw, lh) = geo.lsize();
+            let nsym = (lw * lh) as u64 * 2;
+            let sym = |s: u64| -> (i32, i32, u32) {
+                let p = s / 2;
+                ((p % lw as u64) as i32, (p / lw as u64) as i32, if s % 2 == 0 { 0x1111 } else { 0x2222 })
+            };
+            let mut streams: Vec<Vec<(i32, i32, u32)>> = vec![vec![]];
+            for a in 0..nsym {
+                streams.push(vec![sym(a)]);
+                for b in 0..nsym {
+                    streams.push(vec![sym(a), sym(b)]);
+                }
+            }
+            streams.push((0..(lw * lh) as u64).map(|p| sym(p * 2)).collect());
+            for st in streams {
+                acc.evaluations += 1;
+                acc.nontrivial += 1;
+                acc.transitions += pre.len() as u64 + 1;
+                let mut hist = pre.clone();
+                hist.push(Op::DrawIter(Pixels::List(st.clone())));
+                let ck = Checks { cell_sequences: true, ..Checks::ALL };
+                match check_history(&cfg, &hist, &ck) {
+                    Ok(run) => {
+                        // twin: the same prefix, then set_pixel per pixel
+                        let mut t = Rig::new(&cfg);
+                        for p in pre {
+                            let _ = t.apply(p);
+                        }
+                        for &(x, y, c) in &st {
+                            let _ = t.apply(&Op::SetPixel { x: x as u16, y: y as u16, c });
+                        }
+                        if let Some(d) = run.rig.ctl.mem.first_diff(&t.ctl.mem) {
+                            let f = Fail { sig: "draw_iter/in-bounds/differs-from-set_pixel-twin".into(), msg: format!("after {pre:?}: memory differs from set_pixel per pixel at {d:?}"), at: pre.len() };
+                            acc.violation(violation(ctx, &cfg, &hist, "sequences", &f));
+                        }
+                    }
+                    Err((f, _)) => acc.violation(violation(ctx, &cfg, &hist, "sequences", &f)),
+                }
+                acc.count("streams_after_other_calls", 1);
+            }
+        }
+        acc.states += 1;
+    }
+
     // ---- fine scale on the real transports (byte-level SPI incl. buffers that are not a multiple of the
     // pixel size, strobe-level parallel): all streams of length <= 3 plus rasters larger than the buffer
     for tr in [Transport::Spi { len: 3 }, Transport::Spi { len: 5 }, Transport::Par8, Transport::Par16] {
